@@ -1,5 +1,5 @@
 (* C06 — Bit-fields partition their storage unit exactly, in endian-defined order. *)
-From VF Require Import Model.Writer Proofs.BitsCorrect Gen.GeneratedOk.
+From VF Require Import Model.Writer Proofs.BitsCorrect Proofs.BitRun Gen.GeneratedOk.
 Open Scope list_scope. Open Scope Z_scope.
 
 (* One BitBuffer.read step inside a storage unit (same storage type, enough bits left):
@@ -33,6 +33,27 @@ Proof. exact be_read_pack. Qed.
 Theorem write_or_is_placement : forall a b k, 0 <= k -> 0 <= a < 2 ^ k -> 0 <= b -> Z.lor a (Z.shiftl b k) = a + b * 2 ^ k.
 Proof. exact lor_disjoint. Qed.
 
+(* At the level of the structure loop (StructureMetaType._read): a run of bit fields over one storage unit - the first field loads the
+   unit with ONE scalar read through the storage type, the others read from the buffer - yields exactly the slices of the unit's integer
+   u (little endian: first field lowest; big endian: first field highest), moves the stream past the unit once, and hands the remaining
+   bits to whatever follows.  For every run that fits its unit, every storage type of known size, every stream and position. *)
+Theorem bit_field_run_little : forall e start p al a rd, String.eqb e "<" = true -> forall run rest ro s pos bb u p' sz vals sizes lctx,
+  run <> [] -> widths_ok (map snd run) -> prim_size_z p = Some sz -> total (map snd run) <= sz * 8 -> bb_rem bb = 0 ->
+  prim_read_at e p s pos = Ok (VInt u, p') ->
+  struct_loop e false start (run_items (Some (p, al)) a rd run ++ rest) (nones run ++ ro) s pos bb vals sizes lctx
+  = struct_loop e false start rest ro s p' (mkBB (Some (p, al)) (u / 2 ^ total (map snd run)) (sz * 8 - total (map snd run)))
+      (rev (as_values (named run (le_read_seq u (map snd run)))) ++ vals) sizes (rev (named run (le_read_seq u (map snd run))) ++ lctx).
+Proof. exact bit_unit_le. Qed.
+Theorem bit_field_run_big : forall e start p al a rd, String.eqb e "<" = false -> forall run rest ro s pos bb u p' sz vals sizes lctx,
+  run <> [] -> widths_ok (map snd run) -> prim_size_z p = Some sz -> total (map snd run) <= sz * 8 -> bb_rem bb = 0 ->
+  prim_read_at e p s pos = Ok (VInt u, p') ->
+  struct_loop e false start (run_items (Some (p, al)) a rd run ++ rest) (nones run ++ ro) s pos bb vals sizes lctx
+  = struct_loop e false start rest ro s p' (mkBB (Some (p, al)) u (sz * 8 - total (map snd run)))
+      (rev (as_values (named run (be_read_seq u (sz * 8) (map snd run)))) ++ vals) sizes (rev (named run (be_read_seq u (sz * 8) (map snd run))) ++ lctx).
+Proof. exact bit_unit_be. Qed.
+
+Print Assumptions bit_field_run_little.
+Print Assumptions bit_field_run_big.
 Print Assumptions read_step_little.
 Print Assumptions read_step_big.
 Print Assumptions bits_partition_le.
@@ -53,4 +74,15 @@ Proof. vm_compute. reflexivity. Qed.
 Example ex_model_be : read_top (ex_cfg ">") ex_struct [190; 239] 0 = Ok (VStruct [("a", VInt 11); ("b", VInt 119); ("c", VInt 15)] [], 2).
 Proof. vm_compute. reflexivity. Qed.
 Example ex_model_write : dumps (ex_cfg ">") ex_struct (VStruct [("a", VInt 11); ("b", VInt 119); ("c", VInt 15)] []) = Ok [190; 239].
+Proof. vm_compute. reflexivity. Qed.
+
+(* the run theorems on a concrete structure, through the public entry point: uint16 a:3; uint16 b:9; uint16 c:4; uint8 t; *)
+Definition exr_cfg (e : string) := mkCfg e (PInt 8 false true) 8 [] [].
+Definition exr_ty := TStruct "m" [Fld "a" false u16 (Some 3) None; Fld "b" false u16 (Some 9) None; Fld "c" false u16 (Some 4) None;
+                                  Fld "t" false (TPrim (PInt 1 false true) 1) None None] false.
+Example exr_le : read_top (exr_cfg "<") exr_ty [0xB5; 0x6A; 7] 0
+  = Ok (VStruct [("a", VInt (0x6AB5 mod 8)); ("b", VInt ((0x6AB5 / 8) mod 512)); ("c", VInt (0x6AB5 / 4096)); ("t", VInt 7)] [("t", 1)], 3).
+Proof. vm_compute. reflexivity. Qed.
+Example exr_be : read_top (exr_cfg ">") exr_ty [0xB5; 0x6A; 7] 0
+  = Ok (VStruct [("a", VInt (0xB56A / 8192)); ("b", VInt ((0xB56A / 16) mod 512)); ("c", VInt (0xB56A mod 16)); ("t", VInt 7)] [("t", 1)], 3).
 Proof. vm_compute. reflexivity. Qed.
